@@ -60,7 +60,11 @@ def gen_case(rng, maxlen):
         ops.append("sm 1")
     for _ in range(n):
         k = rng.random()
-        if k < 0.30:
+        if k < 0.04:
+            # the formatted entry point; sizes around its 1024-byte stack buffer
+            ln = rng.choice([1, 10, 1000, 1022, 1023, 1024, 1025, 1026, 2047, 2048, 3000])
+            ops.append("sf " + hx(bytes(rng.choice(b"abcdefghijklmnopqrstuvwxyz<>/= '") for _ in range(ln))))
+        elif k < 0.30:
             ops.append("su " + hx(rdata(rng, nul_ok=False)))
         elif k < 0.40:
             ops.append("sl " + hx(rdata(rng)))
@@ -121,7 +125,7 @@ def py_oracle(ops, outs):
         w = unhx(w)
         post = parse_elems(q)
         t = op.split(" ")
-        if t[0] in ("su", "sl", "ss"):
+        if t[0] in ("su", "sl", "ss", "sf"):
             data = unhx(t[1])
             added = pend(post)[len(pend(pre)):] if pend(post).startswith(pend(pre)) else None
             ok = added in ((data, data + REQ) if connected else (b"",))
